@@ -210,8 +210,22 @@ pub fn case_for(seed: u64, tier: Tier, run: u64) -> Case {
                 let i = below(&mut rng, ns);
                 let (_, _, _, padded) = shape_of(&sessions[i].st);
                 let cat = tamper::catalogue(padded.trailing_zeros() as usize, &mut rng);
-                members[i].tamper = pick(&mut rng, &cat).clone();
-                label = "one-tampered".into();
+                if chance(&mut rng, 1, 4) {
+                    // a member whose two inner-product lists differ in length (surplus / missing
+                    // point in one list only): the batch concatenates all members' points, so a
+                    // length error in one member must not shift or silently drop another's
+                    members[i].tamper = match below(&mut rng, 5) {
+                        0 => Tamper::AppendL(rng.next_u64()),
+                        1 => Tamper::DupLastR,
+                        2 => Tamper::DropLastL,
+                        3 => Tamper::DropLastR,
+                        _ => Tamper::AppendR(rng.next_u64()),
+                    };
+                    label = "one-member-with-unequal-lists".into();
+                } else {
+                    members[i].tamper = pick(&mut rng, &cat).clone();
+                    label = "one-tampered".into();
+                }
             }
             3 => {
                 let i = below(&mut rng, ns);
